@@ -409,6 +409,27 @@ func TestW2Registry(t *testing.T) {
 					}
 					cancel()
 					ops.add(fmt.Sprintf("r.doa t=%d key=%s", id, key), w.obsReg(""))
+				case k < 96:
+					// a tunnel whose channel is closed by the network server BETWEEN the two registration steps
+					// (after the global pool, before the per-key pool): like a dead-on-arrival tunnel it must leave nothing behind
+					key := keys[rng.Intn(len(keys))]
+					id := next
+					next++
+					grpctunnel.VerifSetHook(func(point string, _ int64) {
+						if point != "rev.addglobal" {
+							return
+						}
+						for _, ch := range w.handler.AllReverseTunnels() {
+							if tidOf(ch) == id {
+								ch.Close()
+							}
+						}
+					})
+					tn := w.open(id, key, nil)
+					synctest.Wait()
+					grpctunnel.VerifSetHook(nil)
+					tn.cancel()
+					ops.add(fmt.Sprintf("r.doa t=%d key=%s", id, key), w.obsReg(""))
 				case k < 97 && len(live) == 1:
 					// the last tunnel goes away and a caller starts waiting while it is being torn down
 					tn := live[0]
